@@ -7,7 +7,7 @@ ENGINE_OPTS = dict(nl_mode="exact", timeout_ms=60000, max_decisions=20000)
 EXPLANATION = (
     "Concrete interleavings (histories) of construct / export operations over 2 (thorough: 3) timelines in ONE process - default time scale or "
     "caller-supplied LinearScale, options omitted / {} / partial, SVG and TikZ, a crowded timeline with neighbouring stubs next to one that sets its "
-    "own lineSpacing - with symbolic times/widths where the scale is linear; every export is compared with the export of the same timeline alone "
+    "own lineSpacing, two timelines built from ONE caller options dict that contains no scale, pairs of option-less timelines - with symbolic times/widths where the scale is linear; every export is compared with the export of the same timeline alone "
     "after a fresh (instrumented) re-import of all labella modules (the in-process equivalent of a fresh interpreter: module-level state is "
     "re-created). Documents are compared as texts whose printed numbers are hole tokens: identical normal forms of every hole term and identical "
     "text around them decide equality for every value of the path region; a differing pair of terms goes to z3. Exporting twice is part of every history."
